@@ -14,11 +14,28 @@ def versions(P, c):
     st = next(s for s in P["strata"] if c["head"]["rel"] in s)
     return sum(1 for a in atoms_of(c) if a["rel"] in st)
 
-def planned(P, rng, full):
+def _h(pid, k):
+    import zlib
+    return zlib.crc32(("%s/%d" % (pid, k)).encode()) & 0xffff
+
+def has_agg(x):
+    if isinstance(x, dict):
+        return x.get("k") == "agg" or any(has_agg(v) for v in x.values())
+    if isinstance(x, list):
+        return any(has_agg(v) for v in x)
+    return False
+
+def planned(P, rng, full, agg_clauses=False):
+    """a plan for every version of every recursive clause with 2-4 body atoms.  Clauses holding an aggregate get their
+    plans in a configuration of their own (agg_clauses=True): souffle checks plans after
+    MaterializeSingletonAggregation has added an atom to such clauses (known finding plan-rejected-after-
+    singleton-aggregate-materialisation), and a rejected program would take the other clauses' plans with it."""
     Q = copy.deepcopy(P)
     any_plan = False
     for c in Q.get("src_clauses") or Q["clauses"]:
         if c.get("disj") or c.get("heads"):
+            continue
+        if has_agg(c["body"]) != agg_clauses:
             continue
         n = len(atoms_of(c))
         if n < 2 or n > 4:
@@ -33,17 +50,31 @@ def planned(P, rng, full):
     return Q if any_plan else None
 
 def configs(P, rng):
+    R = __import__("random").Random
     cs = [{"name": "default order", "args": ["-j1"]}]
     for k in range(4):
-        cs.append({"name": "random plans %d" % k, "args": ["-j1"], "transform": (lambda P_, k=k: planned(P_, __import__("random").Random(hash((P_["id"], k)) & 0xffff), True)),
+        cs.append({"name": "random plans %d" % k, "args": ["-j1"], "transform": (lambda P_, k=k: planned(P_, R(_h(P_["id"], k)), True)),
                    "reject_ok": False})
+    cs.append({"name": "plans on clauses with aggregates", "args": ["-j1"], "agg_plans": True,
+               "transform": (lambda P_: planned(P_, R(_h(P_["id"], 9)), True, agg_clauses=True)), "reject_ok": False})
     for m in SIPS:
         cs.append({"name": "RamSIPS:" + m, "args": ["-j1", "-PRamSIPS:" + m]})
     cs.append({"name": "auto-schedule", "args": ["-j1"], "autoschedule": True})
     return cs
 
+def known_sig(desc, P, case, cfg, o):
+    import re
+    if cfg.get("agg_plans") and o is not None:
+        m = re.search(r"Invalid execution order in plan \(expected (\d+) atoms, not (\d+)\)", (o.stderr or "") + (o.stdout or ""))
+        if m and int(m.group(1)) > int(m.group(2)):
+            return "plan-rejected-after-singleton-aggregate-materialisation"
+    if cfg.get("autoschedule") and o is not None and "[profiling run]" not in (o.stderr or "") and \
+            "profile used for auto-scheduling doesn't match the provided program" in (o.stderr or "") + (o.stdout or ""):
+        return "autoschedule-profile-key-missing-fatal"
+    return None
+
 def run(tier, replay=None):
     return evalprop.run_eval("C07", tier, lambda s, n: gen.programs(s, n), configs,
                              ["4 seeded plan assignments per program (a permutation for every version of every clause with 2-4 atoms)",
                               "auto-schedule uses a profile of the same program on the same EDB"],
-                             n=(10, 120), max_cases=(8, 32))
+                             n=(10, 120), max_cases=(8, 32), known_sig=known_sig)
